@@ -846,6 +846,10 @@ func (e *Engine) uniqueValue(t *Term) *Term {
 	if v, ok := e.uniq[t.id]; ok {
 		return v
 	}
+	if t2 := e.substUniq(t, 0); t2.Op == "c" {
+		e.uniq[t.id] = t2
+		return t2
+	}
 	const none = ^uint64(0) - 12345
 	r := e.record(func() uint64 {
 		e.ensureFeasible()
